@@ -1,4 +1,5 @@
 """C02 - NASA-7 / NASA-9 / Shomate species are internally consistent polynomials."""
+import copy
 import math
 
 import numpy as np
@@ -149,8 +150,8 @@ GETTERS = ['get_CpoR', 'get_HoRT', 'get_SoR', 'get_GoRT']
 DIM = [('get_Cp', 'J/mol/K'), ('get_H', 'kJ/mol'), ('get_S', 'cal/mol/K'), ('get_G', 'eV')]
 
 
-def _array_clause(ctx, tag, obj, T, how, scales, getters=GETTERS, dims=DIM):
-    """get_X(array)[i] == get_X(array[i]).  Vectorised and scalar evaluation may differ in the last
+def _array_clause(ctx, tag, obj, T, how, scales, getters=GETTERS, dims=DIM, pristine=None):
+    """get_X(array)[i] == get_X(array[i]), each temperature 'on its own': on a fresh copy of the never-evaluated object.  Vectorised and scalar evaluation may differ in the last
     bit of every term, so the comparison is at 1e-13 of the sum of |terms| (scales[i] = (cp, h, s))."""
     from pmutt import constants as c
     from vf.core import exc_site
@@ -170,7 +171,8 @@ def _array_clause(ctx, tag, obj, T, how, scales, getters=GETTERS, dims=DIM):
                 raise
             ctx.fail('%s/array-raises:%s:%s' % (tag, g, type(e).__name__), 'T=%r (%s) %r: %s' % (T, how, kw, e))
             continue
-        single = np.ravel(np.asarray([getattr(obj, g)(T=t, **kw) for t in T], dtype=float))
+        single = np.ravel(np.asarray([getattr(copy.deepcopy(pristine) if pristine is not None else obj, g)(T=t, **kw)
+                                      for t in T], dtype=float))
         w = np.ravel(np.asarray(whole, dtype=float))
         if w.shape != (len(T),):
             ctx.fail('%s/array-shape:%s' % (tag, g), 'len(T)=%d result shape %r' % (len(T), np.shape(whole)))
@@ -184,6 +186,7 @@ def check_nasa7(case, ctx):
     from pmutt.empirical.nasa import Nasa
     obj = Nasa(name='X', T_low=case['T_low'], T_mid=case['T_mid'], T_high=case['T_high'],
                a_low=list(case['a_low']), a_high=list(case['a_high']), elements={'H': 2})
+    pristine = copy.deepcopy(obj)
     Tm = case['T_mid']
     both = any(t < Tm for t in case['T']) and any(t >= Tm for t in case['T'])
     near = any(abs(t - Tm) <= 1e-6 * Tm for t in case['T'])
@@ -200,7 +203,7 @@ def check_nasa7(case, ctx):
         allsc.append(scales)
         lo, hi = (Tm, case['T_high']) if T >= Tm else (case['T_low'], Tm)
         _derivatives(ctx, 'C02.nasa7', obj, T, lo, hi, scales)
-    _array_clause(ctx, 'C02.nasa7', obj, case['T'], case['as'], allsc)
+    _array_clause(ctx, 'C02.nasa7', obj, case['T'], case['as'], allsc, pristine=pristine)
 
 
 def check_nasa9(case, ctx):
@@ -208,6 +211,7 @@ def check_nasa9(case, ctx):
     pts = case['pts']
     segs = [SingleNasa9(T_low=pts[i], T_high=pts[i + 1], a=np.array(case['a'][i])) for i in range(len(case['a']))]
     obj = Nasa9(name='X', nasas=[segs[i] for i in case['order']], elements={'H': 2})
+    pristine = copy.deepcopy(obj)
     nseg = len(segs)
     interior = pts[1:-1]
     near = any(abs(t - b) <= 1e-6 * b for t in case['T'] for b in interior)
@@ -249,7 +253,7 @@ def check_nasa9(case, ctx):
         pass
     except Exception:
         pass   # an array-path crash is reported by the array clause below
-    _array_clause(ctx, 'C02.nasa9', obj, case['T'], case['as'], allsc)
+    _array_clause(ctx, 'C02.nasa9', obj, case['T'], case['as'], allsc, pristine=pristine)
     # a single segment on its own
     s0 = segs[0]
     Ts = [t for t in case['T'] if pts[0] <= t <= pts[1]] or [0.5 * (pts[0] + pts[1])]
